@@ -235,7 +235,8 @@ fn cmd_run(a: &Args) -> Result<i32, String> {
         debug_assert_eq!(table[(*run % table.len() as u64) as usize], *sci);
         let first = execute(p, sc, Choices::generate(run_seed(a.seed, p, sc, *run)), false);
         let orig_len = first.choices.len();
-        let m = minimise(p, sc, first.choices, clause);
+        let first_events = first.events;
+        let m = minimise(p, sc, first.choices, clause, first_events);
         let mut file = replay_file_json(p, sc, a.seed, *run, &m.choices, &m.violation, orig_len, m.execs);
         file["tier"] = json!(tier);
         let dir = format!("{}/{}", replay_dir, p.id);
